@@ -61,19 +61,19 @@ CHECKS.update({
    note="Trusted: the crash point is Qt's abort() right after the handler returns; synchronous logger only; real QFile buffering of the installed Qt."),
 })
 
-VS_NOTE = "Trusted: the vqt model of Qt's threading semantics (rules R1-R11, engine/vsched/vqt.cpp) as measured on the installed Qt; sequential consistency at the hooked operations; retargeting by macro leaves the library source unchanged (ownthreadhandler.h, logger.cpp, configure.cpp compiled against vqt)."
+VS_NOTE = "Trusted: the vqt model of Qt's threading semantics (rules R1-R11, engine/vsched/vqt.cpp; R1-R10 re-checked on the installed Qt by engine/procx/qtconf.cpp in every run); sequential consistency at the hooked operations; the time model for timeouts (DESIGN.md 13.7); retargeting by macro leaves the library source unchanged (ownthreadhandler.h, logger.cpp, configure.cpp compiled against vqt). Unsynchronised accesses between two schedule points are covered by the race pass (ThreadSanitizer under the same scheduler, DESIGN.md 13.6)."
 CHECKS.update({
  "C02": dict(engine="vsched", level=MC, design="§3, §7 C02",
-   technique="stateless preemption-bounded schedule exploration (CHESS-style iterative context bounding, one forked execution per schedule) of the real Logger / OwnThreadHandler code under a serialising scheduler",
-   text="Every interleaving up to the deviation bound of 2-4 producers logging through the real Logger (and through a bare synchronous OwnThreadHandler<Pipeline>) with yielding handlers is executed; on each: in-flight <= 1, exactly-once per qualifying sink, per-producer order, consecutive sequence numbers, no deadlock.",
+   technique="stateless preemption-bounded schedule exploration (CHESS-style iterative context bounding, one forked execution per schedule) of the real Logger / OwnThreadHandler code under a serialising scheduler; every schedule of a second, ThreadSanitizer-instrumented exploration is race-checked (scheduler hand-offs invisible to the detector, happens-before edges announced by the Qt model)",
+   text="Every interleaving up to the deviation bound of 2-4 producers logging through the real Logger (incl. a fatal message, whose sink flush must not overlap a send) and through a bare synchronous OwnThreadHandler<Pipeline> with yielding handlers is executed; on each: in-flight <= 1, exactly-once per qualifying sink, per-producer order, consecutive sequence numbers, no deadlock. Synchronous mode reached from an asynchronous phase is covered by operation histories (move, log with messages left queued, stop) with a second thread logging from every position. A race pass reports unsynchronised library accesses on every explored schedule.",
    note=VS_NOTE),
  "C03": dict(engine="vsched", level=MC, design="§3, §7 C03",
-   technique="stateless preemption-bounded schedule exploration of producers + worker thread over the real asynchronous hand-off, field-by-field content oracle with freed caller buffers",
+   technique="stateless preemption-bounded schedule exploration of producers + worker thread over the real asynchronous hand-off (bare handler and Logger, all five message types), field-by-field content oracle with reused/poisoned caller buffers, real-time FIFO oracle, operation histories with racing producers and a sink that logs itself; ThreadSanitizer race pass under the same scheduler",
    text="Every interleaving up to the deviation bound of producers and the worker of a handler moved to its own thread: every accessor of every delivered message equals the original although the caller's buffers are poisoned and freed, exactly once, per-producer FIFO, real-time order, all sinks on the worker thread, worker never holds the handler mutex inside a sink.",
    note=VS_NOTE),
  "C04": dict(engine="vsched", level=MC, design="§3, §7 C04",
-   technique="stateless preemption-bounded schedule exploration of every shutdown path x backlog x racing producer x dispatcher variant over the real stop/drain code, deadlock and livelock detection; each path re-run on the real Qt",
-   text="Every interleaving up to the deviation bound for the five shutdown paths (aboutToQuit, explicit reset, destructor with/without a live application object, with/without exec()), backlogs 0-3, optional racing producer and second move/reset cycle: the stop returns, everything accepted before it is delivered, nothing lost or duplicated, late messages handled synchronously, no destroyed worker touched; confirmed per path on the real Qt.",
+   technique="stateless preemption-bounded schedule exploration of (a) every shutdown path x backlog x racing producer x dispatcher variant and (b) EVERY operation history up to a length bound over {create/destroy application object, move, log, reset, quit+exec, nested loop} with a racing producer from every position, over the real stop/drain code; deadlock and progress-based livelock detection; paths and histories re-run on the real Qt; ThreadSanitizer race pass under the same scheduler",
+   text="Every interleaving up to the deviation bound for the five shutdown paths (aboutToQuit, explicit reset, destructor with/without a live application object, with/without exec()), backlogs 0-3, optional racing producer and second move/reset cycle, and for every well-formed lifecycle history up to the length bound: every stop returns, everything accepted before it is delivered, the logger thread is gone afterwards, nothing lost or duplicated, messages logged without a logger thread are handled synchronously, no destroyed worker touched; paths and short histories confirmed on the real Qt.",
    note=VS_NOTE + " Racing producers only on paths 1-2."),
 })
 
